@@ -116,6 +116,10 @@ func c02(r *rt.Run) {
 	}
 	if r.Replay != "" {
 		_, w := rt.ReadReplay(r.Replay)
+		if fmt.Sprint(w["family"]) == "group-key-values" {
+			c02KeyCase(r, prepare(c02KeySrc), c02KeyUniverse(), int(w["k1"].(float64)), int(w["k2"].(float64)), fmt.Sprint(w["store"]))
+			r.Finish("replay")
+		}
 		c02Case(r, fmt.Sprint(w["source"]), toStrings(w["edb"]), fmt.Sprint(w["store"]))
 		r.Finish("replay")
 	}
@@ -164,8 +168,9 @@ func c02(r *rt.Run) {
 			}
 		}
 	})
+	c02KeyFamily(r)
 	r.Finish("pool A: every aggregating rule (10 bodies x reducers count,sum,min,max,avg,collect_distinct,collect x key {X},{Y},{}) alone, and every pair of rules over a reduced reducer set, " +
-		"x every p subset of {1,2,3}^2 up to a size bound x q subsets; non-trivial = some group has >=2 solutions; distinct by construction")
+		"x every p subset of {1,2,3}^2 up to a size bound x q subsets; group-key values: every ordered pair of a 44-constant universe of mutually confusable constants as keys of 4 aggregating rules; non-trivial = some group has >=2 solutions; distinct by construction")
 }
 
 func c02Case(r *rt.Run, src string, edbText []string, kind string) {
